@@ -353,7 +353,9 @@ func c07ContextOnly(c *Ctx) {
 	// every *Tunnel value used in package security comes from getTunnel(<own ctx parameter>)
 	tunT := types.NewPointer(c.NamedType("cmd/rdpgw/protocol", "Tunnel"))
 	nUses := 0
+	nCtxReads := 0
 	for _, fn := range c.allFirstPartyFuncs() {
+		fn := fn
 		if fn.Pkg == nil && fn.Parent() == nil {
 			continue
 		}
@@ -364,8 +366,46 @@ func c07ContextOnly(c *Ctx) {
 		if root.Pkg == nil || root.Pkg.Pkg.Path() != secPkgPath {
 			continue
 		}
-		if shortFn(fn) == "cmd/rdpgw/security.getTunnel" {
-			continue
+		ctxKey := c.constStringOf("cmd/rdpgw/protocol", "CtxTunnel")
+		ownCtx := func(v ssa.Value) bool {
+			p, ok := v.(*ssa.Parameter)
+			return ok && p.Parent() == fn && len(fn.Params) > 0 && p == fn.Params[0] && p.Type().String() == "context.Context"
+		}
+		// fromOwnContext: v is (a component of) ctx.Value(CtxTunnel) of this function's own context
+		// parameter, or of a call of another function of this package given that same parameter
+		var fromOwnContext func(v ssa.Value, depth int) bool
+		fromOwnContext = func(v ssa.Value, depth int) bool {
+			if depth > 4 {
+				return false
+			}
+			switch x := v.(type) {
+			case *ssa.Const:
+				return x.IsNil()
+			case *ssa.Phi:
+				for _, e := range x.Edges {
+					if e != v && !fromOwnContext(e, depth+1) {
+						return false
+					}
+				}
+				return true
+			case *ssa.Extract:
+				return fromOwnContext(x.Tuple, depth+1)
+			case *ssa.TypeAssert:
+				call, ok := x.X.(*ssa.Call)
+				if !ok || !call.Call.IsInvoke() || call.Call.Method.Name() != "Value" || !ownCtx(call.Call.Value) {
+					return false
+				}
+				k, isC := constString(call.Call.Args[0])
+				if isC && k == ctxKey {
+					nCtxReads++
+					return true
+				}
+				return false
+			case *ssa.Call:
+				cal := x.Call.StaticCallee()
+				return cal != nil && cal.Pkg != nil && cal.Pkg.Pkg.Path() == secPkgPath && len(x.Call.Args) > 0 && ownCtx(x.Call.Args[0])
+			}
+			return false
 		}
 		eachInstr(fn, func(in ssa.Instruction) {
 			v, ok := in.(ssa.Value)
@@ -373,26 +413,10 @@ func c07ContextOnly(c *Ctx) {
 				return
 			}
 			nUses++
-			good := false
-			if call, ok := v.(*ssa.Call); ok && calleeName(call) == secPkgPath+".getTunnel" {
-				if p, ok := arg(call, 0).(*ssa.Parameter); ok && p.Parent() == fn && p == fn.Params[0] {
-					good = true
-				}
-			}
-			c.Check(good, rule, "tunnel value in "+shortFn(fn)+"#"+itoa(nUses), in.Pos(), "the tunnel of this call's own context", "a tunnel other than the one in the callback's own context is obtained ("+describe(in)+")")
+			c.Check(fromOwnContext(v, 0), rule, "tunnel value in "+shortFn(fn)+"#"+itoa(nUses), in.Pos(), "the tunnel of this call's own context", "a tunnel other than the one in the callback's own context is obtained ("+describe(in)+")")
 		})
 	}
-	gt := c.Fn("cmd/rdpgw/security", "getTunnel")
-	okKey := false
-	for _, ci := range callsIn(gt) {
-		cc := ci.Common()
-		if cc.IsInvoke() && cc.Method.Name() == "Value" && cc.Value == ssa.Value(gt.Params[0]) {
-			if s, ok := constString(cc.Args[0]); ok && s == c.constStringOf("cmd/rdpgw/protocol", "CtxTunnel") {
-				okKey = true
-			}
-		}
-	}
-	c.Check(okKey, rule, "getTunnel", gt.Pos(), "reads ctx.Value(protocol.CtxTunnel) of the given context", "getTunnel does not read the CtxTunnel value of the given context")
+	c.Check(nCtxReads > 0, rule, "getTunnel", token.NoPos, "the package reads ctx.Value(protocol.CtxTunnel) of the given context", "getTunnel does not read the CtxTunnel value of the given context")
 	// the packet loop's context carries the tunnel its processor was built on
 	hg := c.Fn("cmd/rdpgw/protocol", "Gateway.HandleGatewayProtocol")
 	var wv *ssa.Call
